@@ -402,6 +402,8 @@ class DescriptorTransaction(_TransactionBase):
                 if tr_item.new is None:
                     msg = f'State deleted? That should not be possible! handle = {descriptor_container.Handle}'
                     raise ValueError(msg)
+                # the copy might still refer to a descriptor object that is not the one in the mdib (any more)
+                tr_item.new.descriptor_container = descriptor_container
                 tr_item.new.update_descriptor_version()
             else:
                 old_state = self._mdib.states.descriptor_handle.get_one(
